@@ -234,6 +234,7 @@ RunLoop:
 			pc++
 			continue RunLoop
 		case code.Type2Pfx:
+			c.pc = pc // index operations may call metamethods: see binary operators
 			reg := opcode.GetA()
 			coll := getReg(regs, cells, opcode.GetB())
 			idx := getReg(regs, cells, opcode.GetC())
